@@ -46,6 +46,9 @@ var edgeBits = []uint64{0, 1, 0x7f, 0x80, 0xff, 0x7fff, 0x8000, 0xffff, 0x7fffff
 	uint64(math.Float32bits(1)), uint64(math.Float32bits(-1)), uint64(math.Float32bits(float32(math.Inf(-1)))),
 	uint64(math.Float32bits(math.MaxFloat32)), math.Float64bits(math.MaxFloat64), 0x8000000000000000 >> 32}
 
+// EdgeBits exposes the interesting bit patterns (for stratified sweeps).
+func EdgeBits() []uint64 { return append([]uint64{}, edgeBits...) }
+
 func genBits() *rapid.Generator[uint64] {
 	return rapid.OneOf(rapid.Uint64(), rapid.SampledFrom(edgeBits), rapid.Uint64Range(0, 300))
 }
